@@ -343,7 +343,112 @@ func (h *c12Hist) emit(c *Ctx) {
 	c.Emit("pal.hist", []string{h.kind, strconv.Itoa(c12GB(h.kind)), strconv.Itoa(h.n), h.ctor, ops}, strings.Join(h.obs, ","))
 }
 
+// ---------- several live containers (pal.multi) ----------
+
+type c12Multi struct {
+	kind  string
+	n     int
+	ctors []string
+	cs    []*c12Hist
+	dead  bool // a constructor panicked
+	ended bool // a ReadFrom failed
+	ops   []string
+	obs   []string
+}
+
+func c12MakeMulti(kind string, n int, ctors []string) *c12Multi {
+	m := &c12Multi{kind: kind, n: n, ctors: ctors}
+	for _, ct := range ctors {
+		h := c12Make(kind, n, ct)
+		if h.dead {
+			m.dead = true
+		}
+		m.cs = append(m.cs, h)
+	}
+	return m
+}
+
+// c12AllOf reads every position of one container.
+func c12AllOf(h *c12Hist) string {
+	var o string
+	p, _ := guard(func() {
+		xs := make([]int, 0, max(h.n, 0))
+		for i := 0; i < h.n; i++ {
+			xs = append(xs, h.c.Get(i))
+		}
+		o = c12ShowAll(xs)
+	})
+	if p {
+		return "panic"
+	}
+	return o
+}
+
+// apply runs op on container k and then reads EVERY container.
+func (m *c12Multi) apply(k int, op string) {
+	if m.dead || m.ended {
+		return
+	}
+	h := m.cs[k]
+	before := len(h.obs)
+	h.apply(op)
+	if len(h.obs) == before {
+		return
+	}
+	parts := []string{h.obs[len(h.obs)-1]}
+	for _, x := range m.cs {
+		parts = append(parts, c12AllOf(x))
+	}
+	m.ops = append(m.ops, fmt.Sprintf("%d@%s", k, op))
+	m.obs = append(m.obs, strings.Join(parts, "/"))
+	if h.ended {
+		m.ended = true
+	}
+}
+
+func (m *c12Multi) emit(c *Ctx) {
+	ops := "-"
+	if len(m.ops) > 0 {
+		ops = strings.Join(m.ops, ",")
+	}
+	obs := "panic"
+	if !m.dead {
+		oks := make([]string, len(m.cs))
+		for i := range oks {
+			oks[i] = "ok"
+		}
+		obs = strings.Join(append([]string{strings.Join(oks, "|")}, m.obs...), ",")
+	}
+	c.Emit("pal.multi", []string{m.kind, strconv.Itoa(c12GB(m.kind)), strconv.Itoa(m.n), strings.Join(m.ctors, "|"), ops}, obs)
+}
+
+func c12ReplayMulti(c *Ctx, args []string) bool {
+	n, err := strconv.ParseInt(args[2], 10, 64)
+	if err != nil {
+		return false
+	}
+	m := c12MakeMulti(args[0], int(n), strings.Split(args[3], "|"))
+	if args[4] != "-" {
+		for _, o := range strings.Split(args[4], ",") {
+			i := strings.Index(o, "@")
+			if i < 0 {
+				return false
+			}
+			k, err := strconv.Atoi(o[:i])
+			if err != nil || k < 0 || k >= len(m.cs) {
+				return false
+			}
+			m.apply(k, o[i+1:])
+		}
+	}
+	m.emit(c)
+	return true
+}
+
 func replayC12(c *Ctx, op string, args []string) bool {
+	if op == "pal.multi" && len(args) == 5 {
+		return c12ReplayMulti(c, args)
+	}
 	if op != "pal.hist" || len(args) != 5 {
 		return false
 	}
@@ -1119,6 +1224,88 @@ func genC12(c *Ctx) {
 					seq[i] = ws[c.R.Intn(len(ws))]
 				}
 				c.c12Reload(kind, n, seq, k%2 == 0)
+			}
+		}
+	}
+
+	// (8) two or three live containers of one kind: constructor / Set histories / reloads of every width class
+	// (often single-valued, with different values), steps interleaved, every container read after every step
+	for _, kind := range kinds {
+		ws := c12Widths(kind)
+		reg := c12Registry(kind)
+		for _, n := range []int{16, 64, 4096} {
+			cnt := c.N(80, 2000)
+			if n == 4096 {
+				cnt = c.N(3, 50)
+			}
+			for ; cnt > 0; cnt-- {
+				k := 2 + c.R.Intn(2)
+				ctors := make([]string, k)
+				for i := range ctors {
+					ctors[i] = fmt.Sprintf("new:%d", c.c12Default(kind))
+				}
+				m := c12MakeMulti(kind, n, ctors)
+				var seen []int
+				pickW := func() int {
+					if c.R.Intn(5) < 2 {
+						return 0
+					}
+					return ws[c.R.Intn(len(ws))]
+				}
+				reload := func(i, w int) {
+					pal, wire := c.c12HandWire(kind, n, w)
+					seen = append(seen, pal...)
+					in := append([]byte(nil), wire...)
+					if c.R.Intn(4) == 0 {
+						in = append(in, c.c11Bytes(1+c.R.Intn(2))...)
+					}
+					m.apply(i, c.c12RF(in))
+				}
+				switch cnt % 4 {
+				case 0: // every container reloaded single-valued, each with its own value, then widened by Set
+					for i := 0; i < k; i++ {
+						reload(i, 0)
+					}
+					for i := 0; i < k; i++ {
+						m.apply(i, fmt.Sprintf("set:%d:%d", c.R.Intn(n), c.R.Intn(reg)))
+					}
+				case 1: // every container reloaded at one width class
+					w := ws[c.R.Intn(len(ws))]
+					for i := 0; i < k; i++ {
+						reload(i, w)
+					}
+				}
+				steps := 4 + c.R.Intn(12)
+				if n == 4096 {
+					steps = 3 + c.R.Intn(4)
+				}
+				for st := 0; st < steps; st++ {
+					i := c.R.Intn(k)
+					switch r := c.R.Intn(100); {
+					case r < 35:
+						reload(i, pickW())
+					case r < 45: // the wire form of another container
+						j := c.R.Intn(k)
+						m.apply(j, "wt")
+						if !m.ended && m.cs[j].lastWT != nil {
+							m.apply(i, c.c12RF(m.cs[j].lastWT))
+						}
+					case r < 80:
+						v := c.R.Intn(reg)
+						if len(seen) > 0 && c.R.Intn(2) == 0 {
+							v = seen[c.R.Intn(len(seen))]
+						}
+						seen = append(seen, v)
+						m.apply(i, fmt.Sprintf("set:%d:%d", c.R.Intn(n), v))
+					case r < 90:
+						m.apply(i, fmt.Sprintf("get:%d", c.R.Intn(n)))
+					case r < 95:
+						m.apply(i, "pal")
+					default:
+						m.apply(i, "wt")
+					}
+				}
+				m.emit(c)
 			}
 		}
 	}
